@@ -48,3 +48,13 @@ CHECKS["C11"] = {
   "note": "Misfits are chosen unambiguous (a string longer than the slot-rounded space reserved for it; an item longer than its whole array). Python-style wrap-around of negative in-range indices on arrays of dynamic items is accepted.",
   "technique": "property-based testing: generated objects x generated invalid operations, exception + no-side-effect oracle",
 }
+CHECKS["C02"] = {
+  "text": "Exploration: generated types x values x placements (offset != 0, other live objects, growth); the accessor API is built through the library's own path (_gen_kernels + add_kernels + cffi) and EVERY access path (enumerated independently from the type expression) is called with EVERY in-range index tuple: get vs Python value, getp vs Python offset vs the independent layout model's address, len, typeid, member. 16 workers x 100 compiled types quick, x 1500 thorough (a tenth at the library's default -O3).",
+  "note": "Sampling of types/objects on x86-64 with gcc; the symbolic all-header-words reading of the statement is not proved. Null-reference paths are not called (API precondition).",
+  "technique": "property-based differential testing: compiled C accessors vs Python accessors vs independent layout model",
+}
+CHECKS["C07"] = {
+  "text": "Exploration: as C02, plus every setter called on every scalar-leaf position with a generated value (full re-read equals model with exactly one element replaced; byte diff inside the element), and for ~40% of cases a stand-alone clang ASan+UBSan build of the emitted source with the object image in an exact-size malloc block calling every accessor with every in-range index (no report, results equal Python).",
+  "note": "clang 14 sanitizers on x86-64; images are placed so that the object start is 16-aligned; reference-bearing objects use the buffer prefix as image.",
+  "technique": "property-based testing with compiled differential oracle and compiler sanitizers",
+}
